@@ -247,6 +247,16 @@ async def twice_same_days(case):
         out = []
         with vclock.frozen_epoch(case.get("zone", "UTC"), case["ts"]):
             for i in range(case.get("repeat", 2)):
+                if case.get("edit") and i == case.get("repeat", 2) - 1:
+                    # the caller edits its own collection in place and passes the same object again
+                    member = getattr(Days, case["edit"])
+                    if isinstance(days, set):
+                        (days.discard if member in days and len(days) > 1 else days.add)(member)
+                    elif isinstance(days, list):
+                        if member in days and len(days) > 1:
+                            days.remove(member)
+                        elif member not in days:
+                            days.append(member)
                 n0 = len(cl.conn.frames)
                 cl.conn.script.clear()
                 cl.conn.script.extend(ops.good_script("create_schedule", case["args"], case["session"], salt=case.get("salt", 1) + i))
@@ -270,10 +280,22 @@ def body_twice(rep, case):
         rep.label("nonexistent-local-time-skipped")
         return
     out, days_after = net.run(twice_same_days(case))
-    rep.tick("same-days-object-twice", key=case, nontrivial=True, sample=case)
-    if sorted(days_after) != sorted(case["args"]["days"]):
-        raise Violation("C02/callers-days-argument-modified", case, sorted(case["args"]["days"]), sorted(days_after))
+    rep.tick("same-days-object-twice", key=case, nontrivial=True, sample=case, labels=("edited-in-place-between-calls",) if case.get("edit") else ())
+    want_after = list(case["args"]["days"])
+    if case.get("edit") and case["args"].get("days_form", "set") in ("set", "list"):
+        if case["edit"] in want_after and len(want_after) > 1:
+            want_after.remove(case["edit"])
+        elif case["edit"] not in want_after:
+            want_after.append(case["edit"])
+    if sorted(days_after) != sorted(want_after):
+        raise Violation("C02/callers-days-argument-modified", case, sorted(want_after), sorted(days_after))
+    exp_last = expected_frames(dict(case, kind="create_schedule", args=dict(case["args"], days=want_after))) if want_after != list(case["args"]["days"]) else exp
     for i, (status, frames) in enumerate(out):
+        if i == len(out) - 1 and exp_last is not exp:
+            if exp_last is None or status != "ok" or len(frames) != 2 or frames[1] not in exp_last[1]:
+                raise Violation("C02/command-frame-mismatch/op=create_schedule/same-days-object-edited-in-place", case,
+                                exp_last[1][0].hex() if exp_last else None, {"status": status, "frames": [f.hex() for f in frames]})
+            continue
         if status != "ok" or len(frames) != 2 or frames[1] not in exp[1]:
             raise Violation("C02/command-frame-mismatch/op=create_schedule/same-days-object-call-" + str(i + 1), case,
                             exp[1][0].hex(), {"status": status, "frames": [f.hex() for f in frames]})
@@ -283,7 +305,8 @@ def strat_twice():
     return st.builds(lambda a, dev_id, key, sess, ts, salt, rpt: {"kind": "create_schedule", "args": a, "device_id": dev_id, "key": key,
                                                                   "session": sess, "ts": ts, "salt": salt, "zone": "UTC", "repeat": rpt},
                      gen.op_args("create_schedule").filter(lambda a: a.get("days")), gen.device_ids, gen.keys_int, gen.sessions,
-                     gen.timestamps, st.integers(1, 100), st.integers(2, 3))
+                     gen.timestamps, st.integers(1, 100), st.integers(2, 3)).flatmap(
+        lambda c: st.one_of(st.just(c), st.sampled_from(["MONDAY", "WEDNESDAY", "FRIDAY", "SUNDAY"]).map(lambda d: dict(c, edit=d))))
 
 
 def cases_small():
